@@ -125,8 +125,20 @@ def build_config(args):
             objs.append(o)
         exe = os.path.join(d, "vw")
         w = " ".join("-Wl,--wrap=" + x for x in build.WRAPS)
-        cmd = "gcc -std=gnu11 -D_GNU_SOURCE %s -I%s -I%s %s %s -o %s %s -lpthread -ldl" % (
-            cflags, os.path.join(d, "gen"), build.HARNESS, os.path.join(build.HARNESS, "vw.c"), " ".join(objs), exe, w)
+        # an application that defines the un-prefixed names of the library's internals itself (OpenSSL's MD5_Init,
+        # SHA256_Init ...): crypt-port.h renames all of them to _crypt_*, so in every selection these definitions must
+        # neither collide at link time nor ever be called
+        with open(os.path.join(build.REPO, "lib", "crypt-port.h")) as f:
+            names = sorted(set(re.findall(r"^#\s*define\s+(\w+)\s+_crypt_\w+", f.read(), re.M)) - {"explicit_bzero"})
+        poison = os.path.join(d, "poison.c")
+        with open(poison, "w") as f:
+            f.write("#include <stdlib.h>\n#include <unistd.h>\n#include <string.h>\n"
+                    "static void hit (const char *n) { (void) !write (2, \"POISON-SYMBOL-CALLED \", 21); (void) !write (2, n, strlen (n)); "
+                    "(void) !write (2, \"\\n\", 1); abort (); }\n")
+            for n_ in names:
+                f.write("void %s (void);\nvoid %s (void) { hit (\"%s\"); }\n" % (n_, n_, n_))
+        cmd = "gcc -std=gnu11 -D_GNU_SOURCE %s -I%s -I%s %s %s %s -o %s %s -lpthread -ldl" % (
+            cflags, os.path.join(d, "gen"), build.HARNESS, os.path.join(build.HARNESS, "vw.c"), poison, " ".join(objs), exe, w)
         p = subprocess.run(cmd, shell=True, stdout=subprocess.PIPE, stderr=subprocess.STDOUT, text=True)
         if p.returncode != 0:
             return name, en, None, "link: %s" % p.stdout[-800:], None
